@@ -20,6 +20,7 @@ REDIRECTS = [
     "x.join(it) -> __vf_join__(x, it)",
     "len(x) -> __vf_len__(x)",
     "isinstance(x, T) -> __vf_isinstance__(x, T); type(x) -> __vf_type__(x); x.__class__ -> __vf_class__(x)",
+    "set() -> __vf_set__ (a set subclass that turns symbolic when an index path proxy is added)",
     "str/int/float/repr/Decimal/format(x) -> __vf_str__/__vf_int__/__vf_float__/__vf_repr__/__vf_Decimal__/"
     "__vf_format__",
     "enumerate/zip/sum/any/all/tuple/list/sorted(x) -> run-aware hooks, identity otherwise",
@@ -40,7 +41,7 @@ class Rewrite(ast.NodeTransformer):
         "Decimal": "__vf_Decimal__", "enumerate": "__vf_enumerate__", "zip": "__vf_zip__",
         "sum": "__vf_sum__", "any": "__vf_any__", "all": "__vf_all__", "tuple": "__vf_tuple__",
         "list": "__vf_list__", "sorted": "__vf_sorted__", "issubclass": "__vf_issubclass__",
-        "format": "__vf_format__",
+        "format": "__vf_format__", "set": "__vf_set__",
     }
 
     def __init__(self, modname):
@@ -548,6 +549,66 @@ def vf_format(x, *spec):
     return builtins.format(x, *spec)
 
 
+class FlexSet(set):
+    """the result of `set()` in instrumented code: an ordinary set until a symbolic member (an index path) or a
+    symbolic set is added; from then on a z3 set term (vfkit.paths)"""
+    __vf_symbolic__ = True
+    _sym = None
+
+    def _to_sym(self):
+        if self._sym is None:
+            from . import paths
+            t = paths.S_(builtins.set(self))
+            self._sym = paths.SymSet(t)
+        return self._sym
+
+    def add(self, k):
+        if self._sym is None and not isinstance(k, Proxy):
+            return set.add(self, k)
+        self._to_sym().add(k)
+
+    def update(self, *others):
+        for o in others:
+            if self._sym is None and not _is_sym(o):
+                set.update(self, o)
+            else:
+                self._to_sym().update(o if _is_sym(o) else builtins.set(o))
+
+    @property
+    def t(self):
+        return self._to_sym().t
+
+    def __vf_contains__(self, k):
+        if self._sym is None and not isinstance(k, Proxy):
+            return set.__contains__(self, k)
+        return self._to_sym().__vf_contains__(k)
+
+    def __iter__(self):
+        if self._sym is not None:
+            raise EngineUnsupported("iteration over a symbolic set")
+        return set.__iter__(self)
+
+    def __len__(self):
+        if self._sym is not None:
+            raise EngineUnsupported("len of a symbolic set")
+        return set.__len__(self)
+
+    def __eq__(self, o):
+        if self._sym is not None:
+            raise EngineUnsupported("== on a symbolic set")
+        return set.__eq__(self, o)
+
+    __hash__ = None
+
+
+def vf_set(*a):
+    if not a:
+        return FlexSet()
+    if _is_sym(a[0]):
+        raise EngineUnsupported("set(%s)" % type(a[0]).__name__)
+    return builtins.set(*a)
+
+
 def vf_enumerate(x, *a):
     h = getattr(type(x), "__vf_enumerate__", None)
     if h is not None:
@@ -763,7 +824,7 @@ HOOKS = {
     "__vf_isinstance__": vf_isinstance, "__vf_issubclass__": vf_issubclass, "__vf_type__": vf_type,
     "__vf_class__": vf_class,
     "__vf_str__": vf_str, "__vf_int__": vf_int, "__vf_float__": vf_float, "__vf_repr__": vf_repr,
-    "__vf_Decimal__": vf_Decimal, "__vf_format__": vf_format, "__vf_enumerate__": vf_enumerate, "__vf_zip__": vf_zip,
+    "__vf_Decimal__": vf_Decimal, "__vf_format__": vf_format, "__vf_set__": vf_set, "__vf_enumerate__": vf_enumerate, "__vf_zip__": vf_zip,
     "__vf_sum__": vf_sum, "__vf_any__": vf_any, "__vf_all__": vf_all, "__vf_tuple__": vf_tuple,
     "__vf_list__": vf_list, "__vf_sorted__": vf_sorted, "__vf_getitem__": vf_getitem, "__vf_get__": vf_get,
     "__vf_in__": vf_in, "__vf_or_const__": vf_or_const, "__vf_loop_iter__": vf_loop_iter,
